@@ -6,8 +6,12 @@ SRC = ['harness/h_server_loop.cpp', 'interpose/net_shims.cpp']
 SPEC = dict(
     level='exploration',
     rule='world: one seeded scenario of 5..25 external steps in virtual time over timers (intervals 1,2,3,5,10,1000 ms, bursts created in one tick), socket-pair clients, '
-         'loopback listeners with raw connections, establishers to an open and a closed port; random Server API calls between run() calls and inside every callback kind '
-         '(create, remove self/others - preferring sockets whose event is selected but undelivered -, write with forced partial/EAGAIN/error sends, suspend/resume, interrupt once/twice); '
+         'loopback listeners with raw connections, establishers to an open and a closed port - by address and by HOST NAME (Server::connect(host, port): unresolvable name, name of the open / closed port, '
+         'numeric host string); name resolution is scripted: getaddrinfo is interposed and every resolution waits in the library\'s resolver thread until the scenario completes it as an external event '
+         '(also after its establisher was removed, and all of them before the scenario ends), so establishers are removed while resolving / resolved but not yet processed by the loop, and onAbolished '
+         'removes the failed establisher and reconnects by name at once (pool slot reuse); random Server API calls between run() calls and inside every callback kind '
+         '(create, remove self/others - preferring sockets whose event is selected but undelivered -, write with forced partial/EAGAIN/error sends, suspend/resume, interrupt once/twice, '
+         'writes to 2..3 clients that all fail hard in one go so that several onClosed notifications are queued in the same loop iteration - and onClosed drops another client whose notification is still queued); '
          'onAccepted and onConnected additionally act on the client they are handed before returning its callback object (nothing / write / suspend / suspend+write / write+suspend, the write '
          'with a forced partial / EAGAIN / hard-error send or left to the kernel) and the peer talks at once; '
          'EINTR and oversleep injected into epoll_wait. equal-due: enumerated - n timers due in the same tick, timer i removes timer j at its first activation (all n<=N, i, j, with/without slot reuse). '
@@ -22,8 +26,13 @@ SPEC = dict(
                  'a peer that closes while its client is suspended without backlog is not generated (the loop then spins on EPOLLHUP; no statement of C14 is violated by that)',
                  'loopback TCP delivery is asynchronous: the harness waits (bounded, real time) until its own poll() sees in-flight traffic before judging the loop; exceeding the bound is inconclusive, never a violation',
                  'readiness verdict: fd ready per independent poll() while the loop blocks is a violation only if the needed event bits are missing from the epoll registration observed at the epoll_ctl boundary; with the registration in place the kernel wake-up is considered in flight and re-polled',
+                 'host-name establishers: the resolver threads of the library run for real; a resolution completes only when the scenario says so (the interposed getaddrinfo blocks until then) and the harness '
+                 'then waits in real time (bounded, 30 s, exceeding it is inconclusive) until the resolver thread has written the loop\'s wake-up descriptor - only then the scenario continues, and a completion is never '
+                 'scripted while that descriptor is already readable; with that, the callback sequence of a case does not depend on thread timing. The library\'s thread pool is configured (verification hook) to 12 workers, '
+                 'at most 6 resolutions wait at any time',
+                 'a by-name establisher must not get a callback before its resolution completed; once it completed and the loop was woken, the loop must have opened the connection or called onAbolished before it blocks again',
                  'threaded job: "run() returns after interrupt()" is awaited for 30 s real time; exceeding it is reported as inconclusive (the deterministic no-wakeup check is in the virtual-time job)'],
-    technique='libc interposition (virtual clock, scripted epoll_wait/send/recv), alive-flag tombstones, independent poll() oracle, TSan',
+    technique='libc interposition (virtual clock, scripted epoll_wait/send/recv, gated getaddrinfo), alive-flag tombstones, independent poll() oracle, TSan',
     exhaustive={Q: False, T: False},
     jobs=[
         job('world', 'h_server_loop', 'world', cases={Q: 30000, T: 160000}, procs=16, sources=SRC),
@@ -37,12 +46,20 @@ SPEC = dict(
                     writes_in_onAccepted=20000, writes_in_onAccepted_leaving_backlog=12000, suspends_in_onAccepted=15000, nothing_in_onAccepted=9000,
                     writes_in_onConnected=9000, writes_in_onConnected_leaving_backlog=5000, suspends_in_onConnected=7000, nothing_in_onConnected=4000,
                     resumes_with_pending_data=11000, streams_verified_end_to_end=25000,
-                    **{'set:removal_classes': 20, 'set:interrupt_venues': 7, 'set:fresh_client_acts': 26}),
+                    establishers_by_name=55000, resolutions_completed=55000, resolutions_completed_establisher_removed=15000, establishers_removed_while_resolving=15000,
+                    establishers_removed_resolved_unprocessed=800, onAbolished_unresolvable_name=14000, onAbolished_by_name_connect_failed=7000, onConnected_by_name=15000,
+                    reconnects_by_name_in_onAbolished=15000, reconnects_by_name_reusing_the_removed_slot=9000, establishers_by_numeric_host=4000,
+                    broadcasts_to_dead_peers=12000, onClosed_while_other_close_notifications_pending=15000, clients_removed_with_close_notification_pending=7500,
+                    **{'set:removal_classes': 20, 'set:interrupt_venues': 7, 'set:fresh_client_acts': 26, 'set:resolution_completions': 40, 'set:establisher_kinds': 6}),
             T: dict(cases=170000, callbacks=4000000, timer_activations=1600000, timers_removed=160000, timers_removed_from_equal_run_of_3plus=24000, clients_removed=80000,
                     removed_with_selected_event=8000, onAccepted=16000, onConnected=8000, onAbolished=4000, independent_poll_checks=1600000, timer_due_checks=1600000,
                     eintr_injected=8000, oversleep_injected=16000, run_returns=160000, threaded_interrupt_calls=100000, threaded_run_returns=50000,
                     writes_in_onAccepted=350000, writes_in_onAccepted_leaving_backlog=210000, suspends_in_onAccepted=270000, nothing_in_onAccepted=150000,
                     writes_in_onConnected=150000, writes_in_onConnected_leaving_backlog=90000, suspends_in_onConnected=120000, nothing_in_onConnected=65000,
                     resumes_with_pending_data=190000, streams_verified_end_to_end=400000,
-                    **{'set:removal_classes': 20, 'set:interrupt_venues': 7, 'set:fresh_client_acts': 26})},
+                    establishers_by_name=290000, resolutions_completed=290000, resolutions_completed_establisher_removed=84000, establishers_removed_while_resolving=84000,
+                    establishers_removed_resolved_unprocessed=5000, onAbolished_unresolvable_name=78000, onAbolished_by_name_connect_failed=39000, onConnected_by_name=85000,
+                    reconnects_by_name_in_onAbolished=84000, reconnects_by_name_reusing_the_removed_slot=49000, establishers_by_numeric_host=23000,
+                    broadcasts_to_dead_peers=60000, onClosed_while_other_close_notifications_pending=70000, clients_removed_with_close_notification_pending=35000,
+                    **{'set:removal_classes': 20, 'set:interrupt_venues': 7, 'set:fresh_client_acts': 26, 'set:resolution_completions': 50, 'set:establisher_kinds': 6})},
 )
